@@ -11,4 +11,8 @@ theorem parser_is_perClass : Cel.Gen.Runtime.parserPolicy = .perClass := rfl
 theorem config_policies (ns : NamespacePolicy) : (Cel.Gen.Runtime.config ns).clone = .deep ∧ (Cel.Gen.Runtime.config ns).parser = .perClass :=
   ⟨rfl, rfl⟩
 
+/-- `Environment.__init__` raises the process-wide recursion limit for EVERY environment, whatever its runner class
+(a limit raised only for some environments makes deep expressions depend on which environments exist: `limit_conditional_depends_on_history`) -/
+theorem limit_is_unconditional : ∃ n, Cel.Gen.Runtime.limitPolicy = .always n := ⟨_, rfl⟩
+
 end Cel.Bridge.Runtime
